@@ -721,6 +721,20 @@ pub fn scenarios(thorough: bool) -> Vec<BScenario> {
             BCaller { erased: false, ctx: Ctx::Async, ops: vec![BOp::Wait(500), BOp::OpenGate(0)] },
         ],
     });
+    // S11: callers of the no-timeout forms are parked on a full mailbox when the actor is killed / stopped
+    for end in [BOp::Kill, BOp::Stop] {
+        v.push(BScenario {
+            name: format!("b11-parked-then-{end:?}"),
+            cap: 1,
+            gates: 1,
+            callers: vec![
+                BCaller { erased: false, ctx: Ctx::Thread, ops: vec![t(1, Some(0), None), t(2, None, None)] },
+                BCaller { erased: false, ctx: Ctx::Thread, ops: vec![t(3, None, None)] },
+                BCaller { erased: false, ctx: Ctx::SpawnBlocking, ops: vec![a(4, None, None)] },
+                BCaller { erased: false, ctx: Ctx::Async, ops: vec![end.clone(), BOp::OpenGate(0)] },
+            ],
+        });
+    }
     // S6: unusual timeout values
     v.push(BScenario {
         name: "b6-extreme-timeouts".into(),
